@@ -54,6 +54,16 @@ def c05_grid(ctx, case):
     sig = {"row": row, "datatype": "real" if real else "complex", "parity": nfft % 2}
     ctx.sig_on_exception = sig
     off = est.flag(False, case.get("off", "py"))
+    if nfft > len(x) and (len(x) + nfft + c) % 3 == 0:
+        # one case in three is preceded by an estimate of a *longer* record on the same grid (a caller scanning records of
+        # different lengths with one NFFT): whatever that call left behind must not reach the shorter record's estimate
+        extra = min(nfft - len(x), 36)
+        longer = np.concatenate((x, 5.0 + np.arange(extra) * (1.0 if real else 1.0 + 0.5j)))
+        try:
+            _ = est.build(row, longer, p, NFFT=nfft, scale_by_freq=off).psd
+        except Exception:      # noqa -- the prelude only has to run where the row admits it
+            pass
+        ctx.cls("after a longer record on the same grid")
     if case.get("toggle"):
         a = est.build(row, x, p, NFFT=nfft, scale_by_freq=True)
         b = est.build(row, x, p, NFFT=nfft * c, scale_by_freq=True)
